@@ -90,6 +90,12 @@ def gen_arg(rng, kind):
         return abs(vf.structured_int(rng, 4)) + 1
     if kind == "alias":
         return rng.below(2)
+    if kind == "unit":
+        return rng.choice([0, 1, -1])
+    if kind.startswith("lim_"):
+        lo, hi = RANGE[kind[4:]]
+        v = hi - rng.below(1 << 20) if rng.chance(1, 2) else rng.range(2**31, hi)
+        return -v if lo < 0 and rng.chance(1, 2) and -v >= lo else v
     if kind in RANGE:
         return gen_word(rng, kind)
     if kind.startswith("sh_"):     # shift amount carried by a word type
@@ -223,11 +229,15 @@ def special_list(kind, small=False):
     if kind == "base2":
         return [2, 4, 8, 16, 32]
     if kind.startswith("rt_"):
-        return [1, 2, 3, 5]
+        return [1, 2, 3, 5, 64]
     if kind.startswith("fa_"):
         return [0, 1, 2, 12, 13, 20, 21, 22]
     if kind == "alias":
         return [0, 1]
+    if kind == "unit":
+        return [0, 1, -1]
+    if kind.startswith("lim_"):
+        return [x for x in WORD_SPECIAL[kind[4:]] if abs(x) >= 2**31 - 1] + [2, 3]
     if kind == "d":
         return list(DBL_SPECIAL)
     if kind == "f":
@@ -301,6 +311,32 @@ def grid_cases(v, spec):
             continue
         out.append(list(a))
     return out
+
+
+def grid_selfcheck():
+    """the class seeded change C01-m5 needs, checked on the generated grid itself: for every call form with a big-integer position and a
+    word position, every limit of the word's C type meets the big operand 0 (and 1, -1).  -> (number of triples verified, missing)"""
+    ok, missing = 0, []
+    for v in sorted(VARIANTS):
+        spec = VARIANTS[v]
+        if "gen" in spec or "gridcases" in spec:
+            continue
+        ks = spec["args"]
+        bigs = [i for i, k in enumerate(ks) if k in ("I", "Is")]
+        words = [j for j, k in enumerate(ks) if k in WORD_SPECIAL]
+        if not bigs or not words:
+            continue
+        g = grid_cases(v, spec)
+        for i in bigs:
+            for j in words:
+                have = {(a[i], a[j]) for a in g}
+                for w in WORD_SPECIAL[ks[j]]:
+                    for z in (0, 1, -1):
+                        if (z, w) in have:
+                            ok += 1
+                        elif spec.get("griddom") is None:
+                            missing.append("%s: operand %d = %d with word operand %d = %d" % (v, i, z, j, w))
+    return ok, missing
 
 
 # ------------------------------------------------------------------ the table
